@@ -404,6 +404,16 @@ func runC15(c *Ctx) {
 				continue
 			}
 			instrs(f, func(in ssa.Instruction) {
+				// the metadata root taken out of a copy of the tree's top-level children (delete(roots, metadata.Root))
+				// is the same test in another form
+				if call, isCall := in.(*ssa.Call); isCall {
+					if bi, isB := call.Call.Value.(*ssa.Builtin); isB && bi.Name() == "delete" && len(call.Call.Args) == 2 {
+						if s, okc := constString(call.Call.Args[1]); okc && s == a.metaRoot {
+							nCmp++
+							c.Check(isCallNamed(unwrap(call.Call.Args[0]), "(*ctree.Tree).Children"), "C15.meta-agree", fnName(f), "metadata root removed from "+Expr(call.Call.Args[0]), P.Pos(in.Pos()), "must be the top-level children of the target tree")
+						}
+					}
+				}
 				b, ok := in.(*ssa.BinOp)
 				if !ok || (b.Op != token.EQL && b.Op != token.NEQ) {
 					return
